@@ -299,8 +299,8 @@ func checkIncDec(
 		return violations
 	}
 
-	// Check for receiver increment/decrement: *receiver++
-	if star, ok := node.X.(*ast.StarExpr); ok {
+	// Check for receiver increment/decrement: *receiver++ or (*receiver)--
+	if star, ok := ast.Unparen(node.X).(*ast.StarExpr); ok {
 		violation := checkReceiverIncDec(ctx, node, star)
 		if violation != nil {
 			violations = append(violations, *violation)
